@@ -63,6 +63,53 @@ def evaluate_wf(entities, with_sentinel=False):
     return res
 
 
+
+def evaluate_rdef(entities, strict=False):
+    """RTV.DefRange.rangeDefiniteOK (C11, ranges): a `daterange` value without modifier whose TIMEX names a definite calendar
+    period (YYYY, YYYY-MM, YYYY-Www, YYYY-Www-WE) lies inside that period — and IS that period when `strict` (the caller knows
+    the expression is a plain period such as 'this week'). -> per entity, one bool per value"""
+    lines, shape = [], []
+    for e in entities:
+        n = 0
+        for v in e['values']:
+            def fld(k):
+                x = v.get(k)
+                return cps(x) if isinstance(x, str) and x else '?'
+            lines.append('rdef\t%d\t%d\t%s\t%s\t%s\t%s' % (1 if 'Mod' in v else 0, 1 if strict else 0, cps(str(v.get('type', ''))) or '-',
+                                                         cps(str(v.get('timex', ''))) or '-', fld('start'), fld('end')))
+            n += 1
+        shape.append(n)
+    out = common.driver(lines) if lines else []
+    res, i = [], 0
+    for n in shape:
+        res.append([o == '1' for o in out[i:i + n]])
+        i += n
+    return res
+
+
+def period_boundary_jobs(thorough):
+    """C11 (ranges): the week / weekend / month / year expressions of the committed C08 contract, in every culture's own
+    words, under references around the turn of the year (weeks whose Monday falls on 29-31 December, 1-3 January,
+    week 53) and month ends."""
+    import json, os
+    con = json.load(open(os.path.join(os.path.dirname(os.path.dirname(os.path.dirname(os.path.abspath(__file__)))),
+                                      'contracts', 'C08.json'), encoding='utf-8'))['cultures']
+    refs = [datetime.datetime(2018, 12, 31, 9, 0, 0), datetime.datetime(2019, 12, 30, 0, 0, 0), datetime.datetime(2019, 12, 29, 23, 59, 59),
+            datetime.datetime(2024, 12, 30, 12, 0, 0), datetime.datetime(2025, 12, 29, 0, 0, 0), datetime.datetime(2021, 1, 3, 0, 0, 0),
+            datetime.datetime(2020, 12, 28, 8, 30, 0), datetime.datetime(2016, 1, 1, 0, 0, 0), datetime.datetime(2019, 1, 31, 0, 0, 0),
+            datetime.datetime(2026, 12, 31, 0, 0, 0)]
+    if thorough:
+        refs += [datetime.datetime(y, 12, d, 0, 0, 0) for y in range(1951, 2090, 7) for d in (29, 30, 31)] + \
+                [datetime.datetime(y, 1, d, 0, 0, 0) for y in range(1952, 2090, 9) for d in (1, 2, 3)]
+    jobs = []
+    for cul, rows in sorted(con.items()):
+        texts = sorted({r['text'] for r in rows if r['family'] in ('week', 'weekend', 'month', 'year')})
+        for t in texts:
+            for r in refs:
+                jobs.append((cul, t, r))
+    return jobs
+
+
 MONTHS = ['January', 'February', 'March', 'April', 'May', 'June', 'July', 'August', 'September', 'October', 'November',
           'December']
 
